@@ -20,8 +20,8 @@ ASSUMPTIONS = ["for dicts only the construction method is varied: insertion orde
                "black absence is simulated by a project-local black.py that raises ImportError in the cold interpreter"]
 TASK_TIMEOUT = 1200
 
-ELEMS_Q = ['"a"', '"b"', "1", "None", '(1, "a")', "(1, None)", 'frozenset({"a"})', 'frozenset({"b"})']
-ELEMS_T = ELEMS_Q + ["2", "1.5", 'frozenset({"a", 1})', "(2,)"]
+ELEMS_Q = ['"a"', "1", "None", '(1, "a")', "(1, None)", 'frozenset({"a"})', 'frozenset({"b"})', 'frozenset({"a", "b"})', 'frozenset({"c", "a"})']
+ELEMS_T = ELEMS_Q + ['"b"', "2", "1.5", 'frozenset({"a", 1})', "(2,)"]
 
 
 def bounds(tier):
@@ -59,6 +59,9 @@ def _sites(tier):
                 st = "{%s}" % ", ".join(perm) if perm else "set()"
                 sites.append(("dict:" + key, ["v = {'k': %s, 'j': frozenset([%s])}" % (st, ", ".join(perm))]))
                 sites.append(("list:" + key, ["v = [%s, (%s,)]" % (st, st)]))
+    for i, ex in enumerate(['" a "', '[" a ", "b "]', '{"k": " | ", " j": ""}', '"a\\nb "', '" \\n"', "(1.0, -0.0, 1e100, 2**70)", '[(" a",)]',
+                            "{'k': [' x ', b' y ']}", "1j + 2", "[-1, (-2,)]"]):
+        sites.append(("misc:%d" % i, ["v = %s" % ex]))
     return sites
 
 
